@@ -42,7 +42,7 @@ func (c18) Info(t core.Tier) core.Info {
 	}
 }
 
-func (c18) NumCases(t core.Tier) int { return len(c18Grid) + tierN(t, 3000, 400000) }
+func (c18) NumCases(t core.Tier) int { return len(c18Grid) + tierN(t, 30000, 2000000) }
 
 func buildC18Grid() []any {
 	var out []any
